@@ -158,6 +158,32 @@ def corner_shard(spec, idx, nshards, seed, per_row, cfgname=None):
 PATH_MEMBERS = 3
 
 
+def cp15_shard(spec, part, nparts, seed):
+    """every CP15 register name (CRn, opc1, CRm, opc2) as MCR and as MRC word: coprocessor register transfers are one encoding whatever register they name
+    (a table look-up on the operands creates no decoder path, so the names are enumerated); class, operands and the class of the object from_bitarray
+    returns are checked like for any other word"""
+    spec = get_spec(spec)
+    acc = Acc()
+    rng = random.Random(seed)
+    cpu = spec.cpu()
+    idx = 0
+    for crn in range(16):
+        for opc1 in range(8):
+            for crm in range(16):
+                for opc2 in range(8):
+                    idx += 1
+                    if idx % nparts != part:
+                        continue
+                    for load in (0, 1):
+                        rt = rng.randrange(13)
+                        w = 0xEE000F10 | (opc1 << 21) | (load << 20) | (crn << 16) | (rt << 12) | (opc2 << 5) | crm
+                        if spec.skip and spec.skip(w):
+                            continue
+                        row, _ = table_decode(spec.table, w)
+                        check_word(acc, spec, cpu, w, dc.outcome_of(spec.decoder, w), row, 'cp15-register-name', rng)
+    return acc
+
+
 def undef_shard(spec, cfgname, seed, per_row):
     """words of the UNDEFINED rows of the reference table under a configuration that switches an extension on (Multiprocessing, Virtualization, ThumbEE,
     VFP/SIMD, the R profile): what an extension adds lives in its own rows - a word of an UNDEFINED row stays UNDEFINED whatever is configured"""
